@@ -68,6 +68,13 @@ theorem onCb_noReact {c : SysCfg} (h : c.NoReact) : c.uncached.toCfg.onCb = logC
     cases e <;> simp [Cfg.reactionFor, SysCfg.toCfg, SysCfg.uncached, SysCfg.reaction, h.1, h.2.1, h.2.2]
   rw [this]
 
+theorem onCb_noReact' {c : SysCfg} (h : c.NoReact) : c.toCfg.onCb = logCb := by
+  funext e hd w
+  unfold Cfg.onCb
+  have : c.toCfg.reactionFor e = none := by
+    cases e <;> simp [Cfg.reactionFor, SysCfg.toCfg, SysCfg.reaction, h.1, h.2.1, h.2.2]
+  rw [this]
+
 /-- **Bridge.**  What plain execution (`wp` over `runP`) establishes for an API call holds for
     the same call in the build with the register cache, from any state satisfying the
     invariant of C01 (i.e. after any admissible history): same return value, same handle, same
